@@ -17,12 +17,13 @@ CONSTANTS FieldKinds,     \* kinds added with Field(k)
           Ascending,      \* attribute fields only in ascending name order (cuts symmetric definitions)
           MsgIds,         \* indices into MsgTab for Render
           Sels,           \* which attribute object the delivered message carries
+          StreamPieces,   \* piece lists for messages built with the stream interface ({} = none)
           MaxGlobal, MaxScopes, MaxMsgAttrs, MaxAttrOps
 VARIABLES act,            \* ghost: last action and its arguments
           nops            \* ghost: attribute operations so far (bounds the attribute phase)
 
 NoMsg == [lvl |-> 0, cls |-> 0, err |-> 0, line |-> 0, path |-> <<>>, func |-> <<>>, text |-> <<>>, ts |-> 0, sel |-> 0]
-A(name) == [n |-> name, t |-> <<>>, v |-> <<>>, i |-> 0, m |-> NoMsg]
+A(name) == [n |-> name, t |-> <<>>, v |-> <<>>, i |-> 0, m |-> NoMsg, p |-> <<>>]
 
 \* messages: every level and every class, empty / one-word / multi-word texts, timestamps at day, month,
 \* leap-day and year boundaries, negative / zero / large numbers, paths with and without directories
@@ -77,6 +78,9 @@ M_two   == {3, 6}
 M_three == {1, 4, 6}
 M_all   == 1..7
 Sel_none == {0}
+P_none  == {}
+P_txt   == {<<>>, <<[a |-> FALSE, t |-> T_ab], [a |-> FALSE, t |-> <<>>], [a |-> FALSE, t |-> <<32,120>>]>>}
+P_attr  == {<<>>, <<[a |-> TRUE, t |-> N_b]>>, <<[a |-> FALSE, t |-> <<120,61>>], [a |-> TRUE, t |-> N_a], [a |-> TRUE, t |-> N_b]>>}
 Sel_all == {0, 1, 2}
 
 UserFields == Len(lfields)
@@ -110,7 +114,9 @@ Attrs ==
    \/ \E c \in {1, 2} : AttrRoom /\ mattrs[c] # <<>> /\ RemoveMsgAttrLast(c) /\ act' = [A("RemoveMsgLast") EXCEPT !.i = c]
    \/ \E c \in {1, 2}, n \in AttrNames : AttrRoom /\ mattrs[c] # <<>> /\ RemoveMsgAttr(c, n) /\ act' = [A("RemoveMsg") EXCEPT !.t = n, !.i = c]
 Deliver ==
-   \E i \in MsgIds, s \in Sels : Render(MsgTab[i]) /\ act' = [A("Render") EXCEPT !.m = MsgTab[i] @@ [sel |-> s]]
+   \/ \E i \in MsgIds, s \in Sels : Render(MsgTab[i]) /\ act' = [A("Render") EXCEPT !.m = MsgTab[i] @@ [sel |-> s]]
+   \/ \E i \in MsgIds, s \in Sels, ps \in StreamPieces :
+         NoClock(fmt) /\ Render(MsgTab[i]) /\ act' = [A("Stream") EXCEPT !.m = MsgTab[i] @@ [sel |-> s], !.p = ps]
 MCNext == \/ Builder /\ nops' = nops
           \/ Attrs /\ nops' = nops + 1
           \/ Deliver /\ nops' = nops
